@@ -6,7 +6,7 @@ PROPS = ["theories/Props/C02.vo"]
 CASES_MODULE = "Cases.C02"
 AREA = "pool"
 ISOLATE = True
-TIMEOUT_MS = 6000
+TIMEOUT_MS = 3000
 LEVEL = "proof"
 SHRINK_KEY = "ops"
 SHARD_SIZE = 25
